@@ -53,6 +53,7 @@ type Exec struct {
 	dead          bool // path became infeasible (assumption unsatisfiable)
 	budgetHit     bool
 	permNext      string
+	permCount     int
 	expected      []string // substrings of panics the harness declared as expected
 	sumCache      map[string]*summary
 	known         map[int]bool          // term id -> truth value implied by the path condition (syntactic)
@@ -577,13 +578,28 @@ func (i *interpreter) truth(v value, at interface{}) bool {
 }
 
 // mapOrder gives the iteration order of a map: insertion order (deterministic), unless the
-// harness has requested a symbolic permutation for the next range statement.
-func mapOrder(m *hashmap) []*entry {
+// harness has asked for symbolic iteration orders (rt.MapOrder): then every range statement over
+// a map follows a permutation whose selectors are fresh symbolic inputs, so that the exploration
+// covers every order the Go runtime may choose.
+func (x *Exec) mapOrder(m *hashmap) []*entry {
 	ents := m.live()
-	if m != nil && m.perm != nil {
-		return m.perm(ents)
+	if x.permNext == "" || len(ents) < 2 {
+		return ents
 	}
-	return ents
+	x.permCount++
+	rest := append([]*entry{}, ents...)
+	var out []*entry
+	for len(rest) > 1 {
+		// not numbered like harness inputs: the native replay has no counterpart for it
+		v := x.C.Var(fmt.Sprintf("%s.range%d.pick%d", x.permNext, x.permCount, len(out)), smt.BVSort(64))
+		x.Inputs = append(x.Inputs, v)
+		x.inputSort[v.Name] = smt.BVSort(64)
+		x.Assume(x.C.ULT(v, x.C.BV(64, uint64(len(rest)))))
+		k := int(x.Concretize(v, "map iteration order"))
+		out = append(out, rest[k])
+		rest = append(rest[:k], rest[k+1:]...)
+	}
+	return append(out, rest...)
 }
 
 func (x *Exec) expectPanic(msg string) bool {
